@@ -75,7 +75,12 @@ def rules(model: Model, tier: str) -> List[RuleResult]:
     _lifo(model, L)
     _order(model, O)
     setparams_structure(model, O)
-    return [M, P, W, L, O]
+    from ..rules import substitution as _subst
+    K = RuleResult(PROP, "SUB-K", "parameter de-duplication is keyed on object identity", min_instances=1)
+    SM = RuleResult(PROP, "SUB-M", "every alias of a unique parameter receives the new tensor; nothing is skipped", min_instances=3)
+    _subst.unique_key_identity(model, K)
+    _subst.unique_fill(model, SM)
+    return [M, P, W, L, O, K, SM]
 
 
 # ------------------------------------------------------------------------------------------------- M
